@@ -140,12 +140,37 @@ RTP_CHANGING = ["rtp-live-absurd-seq", "rtp-live-absurd-ts", "rtp-live-bad-codec
                 "rtcp-remb-live-bad-fci", "rtcp-sr-live"]
 AUDIO = ["audio-empty-payload", "audio-one-byte-payload", "audio-garbage-payload", "audio-truncated-payload",
          "audio-oversized-payload"]
+VIDEO_REAL = ["video-undecodable-frame"]
 RAW = ["raw-random", "raw-empty", "raw-one-byte", "raw-truncated-ciphertext", "raw-bitflipped-ciphertext", "raw-dtls-like",
        "raw-srtp-like", "raw-stun-like"]
-ALL_CLASSES = SCTP_VOID + SCTP_CHANGING + RTP_VOID + RTP_CHANGING + RAW + AUDIO
+ALL_CLASSES = SCTP_VOID + SCTP_CHANGING + RTP_VOID + RTP_CHANGING + RAW + AUDIO + VIDEO_REAL
 
 VIDEO_SSRC, VIDEO_RTX_SSRC, V_SENDER_SSRC = 0x0A0B0C01, 0x0A0B0C02, 0x0D0E0F01
 AUDIO_SSRC = 0x0A0B0D01
+REALV_SSRC = 0x0A0B0E01
+_ENCODED_VIDEO = {}       # codec name -> [[rtp payloads of frame 0 (key frame)], [frame 1], ...]  (per process)
+
+
+def encoded_video(codec):
+    """A short genuinely encoded sequence (one key frame, then delta frames), already packetised by aiortc's encoder."""
+    key = codec.mimeType
+    if key not in _ENCODED_VIDEO:
+        import fractions
+        import av
+        import numpy
+        from aiortc.codecs import get_encoder
+        enc = get_encoder(codec)
+        frames = []
+        for i in range(46):
+            arr = numpy.zeros((48, 64, 3), dtype=numpy.uint8)
+            arr[:, :, 0] = (numpy.arange(64) * 3 + i * 5) % 256
+            arr[:, :, 1] = (i * 7) % 256
+            f = av.VideoFrame.from_ndarray(arr, format="rgb24")
+            f.pts, f.time_base = i * 3000, fractions.Fraction(1, 90000)
+            payloads, _ = enc.encode(f, force_keyframe=(i == 0))
+            frames.append([bytes(x) for x in payloads])
+        _ENCODED_VIDEO[key] = frames
+    return _ENCODED_VIDEO[key]
 
 
 class BatonQueue:
@@ -230,10 +255,15 @@ def gen_hostile(ch, spec):
     cfg["turn"] = fakes.gen_turn(ch, ["V"], chance=0.1)
     # an audio stream next to the video one, with genuinely encoded frames and the real decoder behind the receiver
     cfg["audio"] = ch.choice("cfg", [None, "opus", "opus", "PCMU", "PCMA"])
+    # and a second video stream of genuinely encoded frames with the real decoder (judged in runs whose ordinary
+    # network faults are switched off, so that every frame that fails to decode is the forger's doing)
+    cfg["real_video"] = ch.chance("cfg", 0.35)
     # ordinary network faults on the genuine traffic towards the victim (class d)
     cfg["p2v"] = random_profile(ch, "cfg", intensity=ch.choice("cfg", [0.0, 0.05, 0.2])).to_json()
     cfg["p2v"]["base"] = cfg["base"]
     cfg["p2v"]["reorder_max"] = min(cfg["p2v"]["reorder_max"], 0.5)
+    if cfg["real_video"]:
+        cfg["p2v"] = Profile(base=cfg["base"]).to_json()
     # the program: protocol milestones in order, injections sprinkled anywhere
     milestones = ["start_sctp", "open_channel", "start_media", "burst", "burst", "close_channel"]
     ops = [{"op": m} for m in milestones]
@@ -261,6 +291,12 @@ def gen_hostile(ch, spec):
         ops.insert(pos, op)
     for op in ops:
         op["dt"] = ch.choice("wl", [0.0, 0.0, 0.005, 0.05, 0.3, 1.5])
+    if cfg.get("real_video"):
+        # the stream with the real decoder gets its undecodable frames (the class is also swept like every other)
+        at = next(i for i, o in enumerate(ops) if o["op"] == "start_media") + 1
+        for _ in range(ch.choice("wl", [1, 2])):
+            ops.insert(at + ch.index("wl", len(ops) - at + 1), {"op": "inject", "cls": "video-undecodable-frame",
+                                                               "k": ch.randint("wl", 0, 1 << 30, 1), "dt": ch.choice("wl", [0.3, 1.0, 2.0])})
     if cfg.get("victim_sends"):
         # forged acknowledgements placed where they matter: right behind a burst of the victim's own, while that
         # data is still in flight (the genuine acknowledgements are slow)
@@ -298,10 +334,12 @@ class HostileWorld(MediaBase):
             @staticmethod
             def Queue(*a, **kw):
                 # the audio receiver gets the real decoder worker behind a baton queue, the video receivers a tap
-                if world.next_queue == "baton":
-                    world.next_queue = None
+                if world.next_queue is not None:
+                    kind, world.next_queue = world.next_queue, None
                     q = BatonQueue()
-                    world.audio_queue = q
+                    world.batons[kind] = q
+                    if kind == "audio":
+                        world.audio_queue = q
                     return q
                 return TapQueue()
 
@@ -313,6 +351,10 @@ class HostileWorld(MediaBase):
                 return _FakeThreading.Thread()
 
         self.next_queue = None
+        self.batons = {}
+        self.rv_decoded = 0
+        self.rv_sent = 0
+        self.rv_check = None
         self.audio_queue = None
         self.audio_decoded = 0
         self.audio_seq = 0
@@ -395,10 +437,10 @@ class HostileWorld(MediaBase):
             except Exception:  # noqa
                 pass
             self.tool = None
-        q = getattr(self, "audio_queue", None)
-        if q is not None and q.thread is not None and q.thread.is_alive():
-            q.put(None)             # the worker's own end-of-stream marker
-            q.thread.join(2.0)
+        for q in list(getattr(self, "batons", {}).values()):
+            if q.thread is not None and q.thread.is_alive():
+                q.put(None)             # the worker's own end-of-stream marker
+                q.thread.join(2.0)
         super().cleanup()
 
     def wrap_handler(self, obj, name, label):
@@ -586,6 +628,8 @@ class HostileWorld(MediaBase):
 
         if cfg.get("audio"):
             await self.start_audio()
+        if cfg.get("real_video"):
+            await self.start_real_video(media)
         await self.loop.create_task(self.v_receiver.receive(rparams(self.p_sender)), context=pair.ctx["V"])
         await self.loop.create_task(self.p_receiver.receive(rparams(self.v_sender)), context=pair.ctx["P"])
         await self.loop.create_task(self.p_sender.send(sparams(self.p_sender)), context=pair.ctx["P"])
@@ -614,7 +658,7 @@ class HostileWorld(MediaBase):
             f.pts, f.sample_rate, f.time_base = i * n, rate, fractions.Fraction(1, rate)
             payloads, _ = enc.encode(f)
             self.audio_payloads += [bytes(x) for x in payloads]
-        self.next_queue = "baton"
+        self.next_queue = "audio"
         self.a_receiver = pair.ctx["V"].run(rxmod.RTCRtpReceiver, "audio", pair.dtls["V"])
         self.a_receiver._track = rxmod.RemoteStreamTrack(kind="audio")
         world = self
@@ -637,6 +681,93 @@ class HostileWorld(MediaBase):
         self.audio_seq = 100
         self.audio_ts = 0
         self.audio_task = self.loop.create_task(self.audio_sender(), context=pair.ctx["P"])
+
+    async def start_real_video(self, media):
+        cfg, pair = self.cfg, self.pair
+        codec = RTCRtpCodecParameters(mimeType=media.mimeType, clockRate=90000, payloadType=100, parameters=dict(media.parameters))
+        self.rv_codec = codec
+        self.rv_frames = encoded_video(codec)
+        self.next_queue = "video"
+        self.rv_receiver = pair.ctx["V"].run(rxmod.RTCRtpReceiver, "video", pair.dtls["V"])
+        self.rv_receiver._track = rxmod.RemoteStreamTrack(kind="video")
+        world = self
+
+        class CountingQueue:
+            async def put(self, frame):
+                if frame is not None:
+                    world.rv_decoded += 1
+        self.rv_receiver._track._queue = CountingQueue()
+        params = RTCRtpReceiveParameters(codecs=[codec], muxId="2", rtcp=RTCRtcpParameters(cname="sim", mux=True),
+                                         encodings=[RTCRtpDecodingParameters(ssrc=REALV_SSRC, payloadType=100)])
+        await self.loop.create_task(self.rv_receiver.receive(params), context=pair.ctx["V"])
+        self.rv_seq, self.rv_ts, self.rv_pos = 500, 0, 0
+        self.rv_forge = None
+        # reference: the codec library itself, fed the very same frames (the forged one included) outside aiortc
+        import av
+        self.rv_ref = av.CodecContext.create("libvpx" if codec.mimeType.endswith("VP8") else "h264", "r")
+        self.rv_ref_decoded = 0
+        self.rv_task = self.loop.create_task(self.real_video_sender(), context=pair.ctx["P"])
+
+    async def real_video_sender(self):
+        pair = self.pair
+        while not self.dead and pair.dtls["P"].state == "connected":
+            payloads = self.rv_frames[self.rv_pos]
+            forged = False
+            if self.rv_forge is not None and 1 <= self.rv_pos <= 20:
+                # this frame leaves with undecodable codec data instead (intact RTP header and payload descriptor)
+                r, self.rv_forge = self.rv_forge, None
+                # (an inter frame with a garbage body: the payload descriptor / NAL header of the genuine frame is kept,
+                # so that the decoder is handed a frame of the same kind and rejects its contents)
+                from aiortc.codecs import depayload
+                first = payloads[0]
+                body = depayload(self.rv_codec, first)
+                if self.rv_codec.mimeType.endswith("VP8"):
+                    head = first[:len(first) - len(body)]             # the VP8 payload descriptor
+                    garbage = bytes([r.randrange(256) | 1]) + bytes(r.randrange(256) for _ in range(max(8, len(body) - 1)))
+                else:
+                    head = first[:1]                                    # the NAL unit header (a non-IDR slice)
+                    garbage = bytes(r.randrange(256) for _ in range(max(8, len(first) - 1)))
+                payloads = [head + garbage]
+                forged = True
+            self.rv_ts = (self.rv_ts + 3000) & 0xFFFFFFFF
+            try:
+                import av
+                from aiortc.codecs import depayload as _dep
+                pk = av.Packet(b"".join(_dep(self.rv_codec, x) for x in payloads))
+                self.rv_ref_decoded += len(self.rv_ref.decode(pk))
+            except av.FFmpegError:
+                pass
+            for i, pl in enumerate(payloads):
+                self.rv_seq = (self.rv_seq + 1) & 0xFFFF
+                marker = 0x80 if i == len(payloads) - 1 else 0
+                pkt = struct.pack("!BBHLL", 0x80, marker | 100, self.rv_seq, self.rv_ts, REALV_SSRC) + pl
+                if forged:
+                    self.forged[pkt] = "video-undecodable-frame"
+                try:
+                    await pair.dtls["P"]._send_rtp(pkt)
+                except Exception:  # noqa
+                    return
+            if forged:
+                self.probes["undecodable_video_frames_sent"] += 1
+                self.rv_check = {"decoded": self.rv_decoded, "sent": self.rv_sent}
+            else:
+                self.rv_sent += 1
+            self.rv_pos = (self.rv_pos + 1) % len(self.rv_frames)
+            c = self.rv_check
+            if c is not None and self.rv_sent >= c["sent"] + 14:
+                # fourteen genuine delta frames later (the next key frame is still ahead): they were decoded
+                self.rv_check = None
+                await asyncio.sleep(0.3)
+                # how soon a codec recovers from garbage is its own business: the yardstick is the codec library
+                # itself, fed the same frames (a few frames may still sit in the jitter buffer)
+                behind = self.rv_ref_decoded - self.rv_decoded
+                if behind > 4 and not self.dead and not self.violations:
+                    self.violation("C05", "valid-traffic-stalled:video-decoding-falls-behind-the-codec-itself:%s" % self.cfg["codec"],
+                                   "after an undecodable frame and %d genuine ones: the codec library alone has decoded %d frames "
+                                   "of this stream, the receiver %d" % (self.rv_sent - c["sent"], self.rv_ref_decoded, self.rv_decoded))
+                else:
+                    self.probes["video_decoded_on_after_undecodable_frame"] += 1
+            await asyncio.sleep(0.033)
 
     def audio_packet(self, payload):
         self.audio_seq = (self.audio_seq + 1) & 0xFFFF
@@ -938,6 +1069,13 @@ class HostileWorld(MediaBase):
             self.log.add("inject", cls, len(data))
             self.fabric.loop.call_soon(self.vconn.inject, data, context=pair.ctx["V"])
             return
+        if cls in VIDEO_REAL:
+            if not getattr(self, "rv_codec", None) or self.dead:
+                self.probes["video_class_without_real_video_stream"] += 1
+                return
+            self.rv_forge = self.rng(k)       # the sender replaces its next suitable frame
+            self.log.add("inject", cls, 0)
+            return
         if cls in AUDIO:
             if not getattr(self, "audio_codec", None) or self.dead:
                 self.probes["audio_class_without_audio_stream"] += 1
@@ -1076,13 +1214,14 @@ class HostileWorld(MediaBase):
                 self.dead = "task"
                 self.violation("C05", "task-died:%s:%s" % (name.replace(" ", "-"), exc_tag(t.exception())), repr(t.exception()))
                 return
-        q = getattr(self, "audio_queue", None)
-        if q is not None and q.thread is not None and not q.thread.is_alive() and not getattr(self, "_audio_stopped", False):
-            self.dead = "decoder"
-            self.violation("C05", "decoder-thread-died:%s:%s" % (self.cfg.get("audio"), type(q.died).__name__ if q.died else "?"),
-                           "%s: the audio decoder thread ended with %r after %d forged audio packets; %d frames were offered to it "
-                           "afterwards" % (when, q.died, getattr(self, "audio_forged", 0), q.put_after_death))
-            return
+        for kind, q in getattr(self, "batons", {}).items():
+            if q.thread is not None and not q.thread.is_alive():
+                self.dead = "decoder"
+                name = self.cfg.get("audio") if kind == "audio" else self.cfg.get("codec")
+                self.violation("C05", "decoder-thread-died:%s:%s" % (name, type(q.died).__name__ if q.died else "?"),
+                               "%s: the %s decoder thread ended with %r (forged audio packets so far: %d); %d frames were "
+                               "offered to it afterwards" % (when, kind, q.died, getattr(self, "audio_forged", 0), q.put_after_death))
+                return
         for u in self.loop.unhandled:
             e = u.get("exc")
             if e is not None and exc_tag(e).split("@")[1] != "?":
